@@ -142,11 +142,16 @@ def block_cases(tier):
                 for trail, eol in (("", "\n"), (" ", "\n"), ("\t", "\n"), ("", "\r\n")):
                     sep = eol * 2 if blank else eol
                     src = f"Intro paragraph.{eol}{eol}{o}{trail}{sep}{body.replace(chr(10), eol)}{sep}{c}{trail}{eol}{eol}Outro paragraph.{eol}"
-                    for w in ((20, 88) if tier == "quick" else (10, 20, 40, 88)):
-                        for sem in (False, True):
-                            if tier == "quick" and trail + eol != "\n" and (w, sem) != (88, False):
-                                continue
-                            cases.append((o, c, bname, kind, src, dict(width=w, semantic=sem, cleanups=False)))
+                    # a uniformly indented document (pasted from a docstring) is dedented first: the tag lines are then unindented
+                    for ind in ("", "  ", "    "):
+                        if ind and (trail or eol != "\n"):
+                            continue
+                        isrc = "".join(ind + l if l.strip() else l for l in src.splitlines(True))
+                        for w in ((20, 88) if tier == "quick" else (10, 20, 40, 88)):
+                            for sem in (False, True):
+                                if tier == "quick" and (trail + eol != "\n" or ind) and (w, sem) != (88, False):
+                                    continue
+                                cases.append((o, c, bname, kind, isrc, dict(width=w, semantic=sem, cleanups=False)))
     return cases
 
 
@@ -191,7 +196,7 @@ def run(tier: str) -> int:
     consts = dict(MaxLines=2, MaxWords=2 if tier == "quick" else 3, Widths={12, 20}, IndentModes={"plain", "list"})
     chk.rule = (f"segments family: every behaviour of spec/Segments.tla (<= {consts['MaxLines']} source lines x <= {consts['MaxWords']} words over "
                 "{word, opening tag, closing tag, -, |x}, indented or not, widths 12/20, plain / list item); atomic family: 13 atomic constructs x "
-                "positions x partner construct x widths x {fill, semantic}; block family: 4 tag kinds x 5 bodies x with/without blank lines x widths x "
+                "positions x partner construct x widths x {fill, semantic}; block family: 4 tag kinds x 5 bodies x with/without blank lines x {plain, trailing space/tab, CRLF, whole document indented by 2/4} x widths x "
                 "modes; non-trivial = behaviour whose source contains a tag / atomic case with >= 2 output lines / every block case")
     chk.assumptions = ["outputs are parsed back with the fixed token set of the model (any other text = not ok)"]
     res = tlc.run_tlc("Segments", tlc.cfg_text(constants=dict(consts, DoDump=True), invariants=["ModelProps", "Report"]), coverage=True, timeout=3000)
